@@ -77,7 +77,7 @@ Lemma blk_build_body_effect junk bo data off total :
     off + len data <= len b' /\
     (forall i, off <= i < off + len data -> blk_get b' i = blk_get data (i - off)) /\
     (forall b, bo = Some b -> len b <= len b' /\
-       (total <= len b -> len b' = len b) /\
+       (total <= len b -> len b' = len b) /\ (len b < total -> len b' = off + len data) /\
        forall i, 0 <= i < len b -> ~ (off <= i < off + len data) -> blk_get b' i = blk_get b i) /\
     (bo = None -> len b' = total).
 Proof.
@@ -91,7 +91,7 @@ Proof.
       * intros i Hi. rewrite blk_get_write by lia.
         destruct ((off <=? i) && (i <? off + len data)) eqn:E; [reflexivity|lia].
       * split; [|discriminate]. intros b0 Eb. inversion Eb; subst b0.
-        split; [lia|]. split; [lia|]. intros i Hi Hn. rewrite blk_get_write by lia.
+        split; [lia|]. split; [lia|]. split; [lia|]. intros i Hi Hn. rewrite blk_get_write by lia.
         destruct ((off <=? i) && (i <? off + len data)) eqn:E; [lia|reflexivity].
     + assert (Hs : len b <= off + len data) by lia.
       set (b1 := blk_resize_buf junk b (off + len data)).
@@ -101,7 +101,7 @@ Proof.
       * intros i Hi. rewrite blk_get_write by lia.
         destruct ((off <=? i) && (i <? off + len data)) eqn:E; [reflexivity|lia].
       * split; [|discriminate]. intros b0 Eb. inversion Eb; subst b0.
-        split; [lia|]. split; [lia|]. intros i Hi Hn. rewrite blk_get_write by lia.
+        split; [lia|]. split; [lia|]. split; [lia|]. intros i Hi Hn. rewrite blk_get_write by lia.
         destruct ((off <=? i) && (i <? off + len data)) eqn:E; [lia|].
         apply blk_get_resize_buf; lia.
   - destruct (total =? 0) eqn:E0; [lia|].
